@@ -108,7 +108,9 @@ def run_concrete(mod, fn_name, params, assignment, W, timeout_s=10):
         out['outcome'] = 'error'
         out['detail'] = 'Unsupported in concrete mode: %r' % (ex,)
     except Exception as ex:
-        out['outcome'] = 'raise'
+        # an exception that never passed through a frame of the code under
+        # test is a harness error, not a finding
+        out['outcome'] = 'raise' if _from_repo(ex) else 'error'
         out['detail'] = '%s: %s' % (type(ex).__name__, ex)
         out['tb'] = traceback.format_exc(limit=8)
     finally:
@@ -342,6 +344,25 @@ def _explore_once(mod, modname, inst, seed, W, res, t0):
                         res['witness_ok'] += 1
                     elif c['outcome'] == 'cut':
                         pass
+                    elif c['outcome'] in ('violated', 'raise', 'hang'):
+                        # The unmodelled implementation violates the oracle
+                        # on this concrete input although the symbolic path
+                        # held: the model diverged from the code (e.g. the
+                        # code took a C-level route the proxies answer
+                        # differently).  The concrete failure is real: report
+                        # it (it is replayed in a fresh process like any
+                        # counterexample).
+                        notes = c.get('notes') or {}
+                        key = notes.get('key') or '%s:witness' % inst['name']
+                        if key not in state['viol_keys']:
+                            state['viol_keys'].add(key)
+                            res['violations'].append({
+                                'key': key, 'kind': 'witness',
+                                'what': 'path witness fails on the real '
+                                        'code (symbolic path held)',
+                                'concrete': c['outcome'],
+                                'detail': c['detail'][:500],
+                                'assignment': p['witness'], 'notes': notes})
                     else:
                         res['witness_bad'].append(
                             {'assignment': p['witness'], 'concrete': c})
